@@ -1884,4 +1884,178 @@ theorem decRun_sim (p : Params) (pol : Policy) (tun : Tuning) (calls : List Call
     rw [a2] at hbytes
     refine ⟨fun e => by simp, by simp [hbytes], by simp⟩
 
+/-! ### C09, structural half: the lag of an iovec with one pending placeholder -/
+
+/-- The cell at index `j` of the abstraction is a hole exactly when logical offset
+`consumedSize + j` lies in a pending backref's range. -/
+theorem absCells_hole_of_inRange {w : World} {v : Iov} (h : IovInv w v) {e : Nat × BackrefInfo}
+    (he : e ∈ v.backrefs) {j : Nat} (hj : j < (absCells w v).length) (hr : InRange e (v.consumedSize + j)) :
+    (absCells w v)[j]? = some (Cell.hole e.1) := by
+  unfold absCells at hj ⊢
+  rw [mkCells_length] at hj
+  rw [mkCells_getElem?, List.getElem?_eq_getElem hj]
+  simp only [Option.map_some, cellAt, holeAt_eq_some_of_mem h.br_sorted he hr]
+
+theorem absCells_inRange_of_hole {w : World} {v : Iov} (_h : IovInv w v) {j K : Nat}
+    (hc : (absCells w v)[j]? = some (Cell.hole K)) :
+    ∃ e ∈ v.backrefs, e.1 = K ∧ InRange e (v.consumedSize + j) := by
+  unfold absCells at hc
+  rw [mkCells_getElem?] at hc
+  cases hb : (w.flat v.slices)[j]? with
+  | none => rw [hb] at hc; cases hc
+  | some b =>
+    rw [hb] at hc
+    simp only [Option.map_some, cellAt, Option.some.injEq] at hc
+    cases hh : holeAt v.backrefs (v.consumedSize + j) with
+    | none => rw [hh] at hc; cases hc
+    | some k =>
+      rw [hh] at hc
+      simp only [Cell.hole.injEq] at hc
+      subst hc
+      obtain ⟨e, he, hk, hr⟩ := holeAt_some_mem _ _ _ hh
+      exact ⟨e, he, hk, hr⟩
+
+/-- An iovec whose abstraction is `bytes, k ≥ 1 cells of ONE placeholder, bytes` (the encoder's
+shape between calls): the placeholder is the only pending backref that matters for `stable_prefix`,
+it sits in an owned slice `s` at offset `begin`, and the lag — `total_size` minus the bytes of the
+stable prefix — is exactly `begin + k + |bytes after it|`. -/
+theorem lag_of_single_hole {w : World} {v : Iov} (h : IovInv w v) (A B : List UInt8) (k K : Nat) (hk : 1 ≤ k)
+    (hcells : absCells w v = A.map Cell.byte ++ List.replicate k (Cell.hole K) ++ B.map Cell.byte)
+    (e : Nat × BackrefInfo) (he : e ∈ v.backrefs) (heK : e.1 = K) (hek : e.2.len = k) :
+    v.totalSize - (w.visible v).length = e.2.begin + k + B.length ∧
+    ∃ s c, v.slices[e.2.sliceIndex - v.consumedSlices]? = some s ∧ s.region = .chunk c ∧
+      e.2.begin + k ≤ s.len := by
+  have hlen : (absCells w v).length = A.length + k + B.length := by rw [hcells]; simp; omega
+  have hlen2 : (absCells w v).length = sumLens v.slices := by
+    unfold absCells; rw [mkCells_length, h.flat_length]
+  have hsz := h.size_eq
+  have hb := h.br_ok e he
+  have hpos : ∀ x ∈ v.backrefs, 0 < x.2.len := fun x hx => (h.br_ok x hx).len_pos
+  -- every hole of the abstraction is `K`
+  have hholes : ∀ (j x : Nat), (absCells w v)[j]? = some (Cell.hole x) → x = K := by
+    intro j x hx
+    have hm := List.mem_of_getElem? hx
+    rw [hcells] at hm
+    simp only [List.mem_append, List.mem_map, List.mem_replicate, reduceCtorEq, and_false, exists_false,
+      false_or, or_false] at hm
+    obtain ⟨_, hm⟩ := hm
+    exact (Cell.hole.inj hm)
+  -- the key: logical end of the hole range
+  have hkey : e.1 = v.consumedSize + A.length + k := by
+    have hlast : (absCells w v)[A.length + k - 1]? = some (Cell.hole K) := by
+      rw [hcells, List.append_assoc, List.getElem?_append_right (by simp; omega)]
+      simp only [List.length_map]
+      rw [List.getElem?_append_left (by simp; omega)]
+      simp [List.getElem?_replicate]; omega
+    obtain ⟨e', he', hk', hr'⟩ := absCells_inRange_of_hole h hlast
+    have := br_key_unique h.br_sorted hpos he' he (by rw [hk', heK])
+    subst this
+    unfold InRange at hr'
+    by_cases hgt : e'.1 ≤ v.consumedSize + A.length + k
+    · omega
+    · exfalso
+      have hkl := hb.key_le hsz
+      have hB : A.length + k < (absCells w v).length := by omega
+      have hr2 : InRange e' (v.consumedSize + (A.length + k)) := by unfold InRange; omega
+      have hc2 := absCells_hole_of_inRange h he hB hr2
+      rw [hcells, List.getElem?_append_right (by simp)] at hc2
+      simp only [List.length_append, List.length_map, List.length_replicate, Nat.sub_self] at hc2
+      cases B with
+      | nil => simp at hc2
+      | cons b t => simp at hc2
+  -- the head of the pending backrefs is `e`
+  have hhead : v.backrefs.head? = some e := by
+    cases hbr : v.backrefs with
+    | nil => rw [hbr] at he; cases he
+    | cons hd t =>
+      have hhd : hd ∈ v.backrefs := by rw [hbr]; simp
+      have hbh := h.br_ok hd hhd
+      have hkl := hbh.key_le hsz
+      have hsg := hbh.start_ge
+      have hlp := hbh.len_pos
+      have hj : hd.1 - 1 - v.consumedSize < (absCells w v).length := by omega
+      have hr : InRange hd (v.consumedSize + (hd.1 - 1 - v.consumedSize)) := by unfold InRange; omega
+      have hc := absCells_hole_of_inRange h hhd hj hr
+      have := hholes _ _ hc
+      have := br_key_unique h.br_sorted hpos hhd he (by rw [this, heK])
+      subst this
+      rfl
+  obtain ⟨s, c, hget, hreg, hle⟩ := hb.slice
+  have hjlt : e.2.sliceIndex - v.consumedSlices < v.slices.length := by
+    rcases Nat.lt_or_ge (e.2.sliceIndex - v.consumedSlices) v.slices.length with h1 | h1
+    · exact h1
+    · rw [List.getElem?_eq_none h1] at hget; cases hget
+  have hst : v.stableN = e.2.sliceIndex - v.consumedSlices := by
+    unfold Iov.stableN; rw [hhead]; simp only; omega
+  have hke := hb.key_eq
+  unfold sliceStart at hke
+  refine ⟨?_, s, c, hget, hreg, by omega⟩
+  rw [h.visible_length, hst]
+  unfold Iov.totalSize
+  omega
+
+/-- The cells of a drained pipe whose undrained view is `pipeOf done k id body`. -/
+theorem cells_of_total_pipeOf (q : Pipe) (done body : List UInt8) (k id : Nat) (hk : 1 ≤ k)
+    (h : q.total = pipeOf done k id body) :
+    q.cells = (done.drop q.consumed.length).map Cell.byte ++ List.replicate k (Cell.hole id) ++ body.map Cell.byte := by
+  have hc : q.consumed.map Cell.byte ++ q.cells
+      = done.map Cell.byte ++ List.replicate k (Cell.hole id) ++ body.map Cell.byte := by
+    have := congrArg Pipe.cells h
+    simpa [Woodpile.Pipe.Pipe.total, pipeOf] using this
+  have hle : q.consumed.length ≤ done.length := by
+    rcases Nat.lt_or_ge done.length q.consumed.length with hlt | hge
+    · exfalso
+      have h1 : (q.consumed.map Cell.byte ++ q.cells)[done.length]? =
+          (done.map Cell.byte ++ List.replicate k (Cell.hole id) ++ body.map Cell.byte)[done.length]? := by rw [hc]
+      rw [List.getElem?_append_left (by simpa using hlt), List.append_assoc,
+        List.getElem?_append_right (by simp)] at h1
+      simp only [List.length_map, Nat.sub_self] at h1
+      rw [List.getElem?_append_left (by simp; omega)] at h1
+      simp [List.getElem?_replicate, List.getElem?_eq_getElem hlt] at h1
+    · exact hge
+  have := congrArg (List.drop q.consumed.length) hc
+  rw [List.drop_left' (by simp), List.append_assoc, List.drop_append_of_le_length (by simpa using hle),
+    ← List.map_drop] at this
+  rw [this, List.append_assoc]
+
+/-- Structural lag of the encoder between calls (any calls so far, any drain schedule): the
+pending size header is a backref `e` of the iovec, in an owned slice `s` (one arena chunk `c`) at
+offset `e.begin`; `total_size − |stable prefix| = e.begin + brLen + cur`; and
+`cur + (1 if an FE is held) < maxChunk ∈ {maxInit, maxSub}`. -/
+theorem enc_lag_struct (p : Params) (hp : p.Valid) (pol : Policy) (tun : Tuning) (calls : List Call) :
+    ∃ r v e s c, encPrefix p pol tun calls = some r ∧ r.w.iov 0 = some v ∧ IovInv r.w v ∧
+      e ∈ v.backrefs ∧ e.2.len = r.e.st.brLen ∧
+      v.slices[e.2.sliceIndex - v.consumedSlices]? = some s ∧ s.region = .chunk c ∧
+      e.2.begin + r.e.st.brLen ≤ s.len ∧
+      v.totalSize - (r.w.visible v).length = e.2.begin + r.e.st.brLen + r.e.st.cur ∧
+      1 ≤ r.e.st.brLen ∧ r.e.st.brLen ≤ 2 ∧
+      r.e.st.cur + (if r.e.st.mid then 1 else 0) < r.e.st.maxChunk ∧
+      (r.e.st.maxChunk = p.maxInit ∨ r.e.st.maxChunk = p.maxSub) := by
+  obtain ⟨r, acc, h1, ⟨v, q, evs, hv, hsim, _, _, hrel⟩, _⟩ := encPrefix_inv p hp pol tun calls
+  obtain ⟨hi1, _⟩ := fold_init_inv p hp (inputOf calls)
+  generalize (inputOf calls).foldl (byteStep p) BS.init = σ at hrel hi1
+  obtain ⟨hmax, hcur, hmid, hbr, hnid, hq⟩ := hrel
+  have hk : 1 ≤ r.e.st.brLen ∧ r.e.st.brLen ≤ 2 := by cases hf : σ.first <;> simp [hbr, hf]
+  have hcells := cells_of_total_pipeOf q σ.done σ.body r.e.st.brLen r.e.st.backref hk.1 hq
+  have hm : Cell.hole r.e.st.backref ∈ q.cells := by
+    rw [hcells]
+    simp only [List.mem_append, List.mem_replicate]
+    exact Or.inl (Or.inr ⟨by omega, trivial⟩)
+  obtain ⟨e, _, he, hek, hel⟩ := hsim.token _ hm
+  have hcnt : q.cells.count (Cell.hole r.e.st.backref) = r.e.st.brLen := by
+    rw [← count_hole_total, hq, count_hole_pipeOf]
+  have habs : absCells r.w v = (σ.done.drop q.consumed.length).map Cell.byte ++
+      List.replicate r.e.st.brLen (Cell.hole (tokKey r.e.toks r.e.st.backref)) ++ σ.body.map Cell.byte := by
+    rw [hsim.cells, hcells, List.map_append, List.map_append, rename_map_byte, rename_map_byte,
+      rename_replicate_hole]
+  obtain ⟨g1, s, c, g2, g3, g4⟩ := lag_of_single_hole hsim.inv _ _ _ _ hk.1 habs e he hek (by rw [hel, hcnt])
+  have hinv' : σ.eff.length < Spec.limit p σ.first := hi1
+  have hM : σ.M p = Spec.limit p σ.first := rfl
+  rw [BS.eff_length, ← hmid, ← hcur] at hinv'
+  refine ⟨r, v, e, s, c, h1, hv, hsim.inv, he, by rw [hel, hcnt], g2, g3, g4, ?_, hk.1, hk.2, by omega, ?_⟩
+  · rw [g1, hcur]
+  · cases hf : σ.first
+    · right; rw [hmax, hM, hf]; rfl
+    · left; rw [hmax, hM, hf]; rfl
+
 end Woodpile.EncWorld
